@@ -14,6 +14,7 @@ import (
 
 	"codeberg.org/TauCeti/mangle-go/analysis"
 	"codeberg.org/TauCeti/mangle-go/ast"
+	"codeberg.org/TauCeti/mangle-go/builtin"
 	"codeberg.org/TauCeti/mangle-go/engine"
 	"codeberg.org/TauCeti/mangle-go/factstore"
 	"codeberg.org/TauCeti/mangle-go/parse"
@@ -338,6 +339,145 @@ func c10Jobs(thorough bool) []c10Job {
 			}})
 		}
 	}
+	// (f) built-in grid: every built-in function with 0..4 arguments in a rule head, a body equality, a let and a
+	// reducer position; every built-in predicate with 0..4 arguments, plain and negated, over bound variables, an unbound
+	// variable, constants and structured constants; all under bounds checking and evaluation
+	{
+		var fnSyms, predSyms []string
+		seenF := map[string]bool{}
+		for f := range builtin.Functions {
+			seenF[f.Symbol] = true
+		}
+		for f := range builtin.ReducerFunctions {
+			seenF[f.Symbol] = true
+		}
+		for f := range seenF {
+			fnSyms = append(fnSyms, f)
+		}
+		sort.Strings(fnSyms)
+		seenP := map[string]bool{}
+		for q := range builtin.Predicates {
+			seenP[q.Symbol] = true
+		}
+		for q := range seenP {
+			predSyms = append(predSyms, q)
+		}
+		sort.Strings(predSyms)
+		decls := []string{"", "Decl bar(X) bound [/any].\n", "Decl bar(S) bound [.Struct</a: /number>].\nDecl foo(Y) bound [/any].\n", "Decl bar(S) bound [fn:List(/number)].\n"}
+		facts := []string{"bar(1).", "bar({/a: 1}).", "bar([1, 2]).", "bar(\"s\").", "bar(/a)."}
+		argPool := []string{"X", "1", "/a", "K", "\"s\"", "[X]", "_"}
+		for _, fsym := range fnSyms {
+			fsym := fsym
+			jobs = append(jobs, c10Job{"builtin-grid function " + fsym, func(probe func(kind, input string)) {
+				var argLists []string
+				var rec func(cur []string)
+				rec = func(cur []string) {
+					argLists = append(argLists, strings.Join(cur, ", "))
+					if len(cur) == 3 {
+						return
+					}
+					for _, a := range argPool[:5] {
+						rec(append(append([]string{}, cur...), a))
+					}
+				}
+				rec(nil)
+				argLists = append(argLists, "X, 1, 2, 3", "X, X, X, X, X")
+				for di, d := range decls {
+					for fi, f := range facts {
+						if (di+fi)%2 == 1 && !thorough {
+							continue
+						}
+						for _, al := range argLists {
+							app := fsym + "(" + al + ")"
+							pre := d + f + "\nk(/a).\n"
+							probe("unit", pre+"foo("+app+") :- bar(X), k(K).\n")
+							probe("unit", pre+"foo(Y) :- bar(X), k(K), Y = "+app+".\n")
+							probe("unit", pre+"foo(Y) :- bar(X), k(K) |> let Y = "+app+".\n")
+							probe("unit", pre+"foo(Y) :- bar(X), k(K) |> do fn:group_by(K), let Y = "+app+".\n")
+						}
+					}
+				}
+			}})
+		}
+		for _, psym := range predSyms {
+			psym := psym
+			jobs = append(jobs, c10Job{"builtin-grid predicate " + psym, func(probe func(kind, input string)) {
+				var argLists []string
+				var rec func(cur []string)
+				rec = func(cur []string) {
+					argLists = append(argLists, strings.Join(cur, ", "))
+					if len(cur) == 3 {
+						return
+					}
+					for _, a := range argPool {
+						rec(append(append([]string{}, cur...), a))
+					}
+				}
+				rec(nil)
+				for _, d := range decls {
+					for _, f := range facts {
+						for _, al := range argLists {
+							at := psym + "(" + al + ")"
+							pre := d + f + "\nk(/a).\n"
+							probe("unit", pre+"foo(X) :- bar(X), k(K), "+at+".\n")
+							probe("unit", pre+"foo(X) :- bar(X), k(K), !"+at+".\n")
+						}
+					}
+				}
+			}})
+		}
+	}
+	// (g) type-expression grid: every type constructor with 0..3 arguments from a pool that includes constructors
+	// in the wrong place (fn:opt outside a struct, a number, a variable), as the bound of a declared predicate with a fact
+	{
+		ctors := []string{"fn:List", "fn:Pair", "fn:Map", "fn:Struct", "fn:Tuple", "fn:Union", "fn:Option", "fn:Singleton", "fn:opt", "fn:Fun", "fn:TaggedUnion", "fn:Nope"}
+		targs := []string{"/number", "/a", "fn:opt(/a)", "fn:opt(/a, /number)", "fn:List(/number)", "1", "X", "fn:Struct()", "\"s\""}
+		vals := []string{"1", "{/a: 1}", "[1]", "fn:pair(1, 2)", "[/a: 1]", "/a"}
+		for _, ct := range ctors {
+			ct := ct
+			jobs = append(jobs, c10Job{"type-grid " + ct, func(probe func(kind, input string)) {
+				var argLists []string
+				var rec func(cur []string)
+				rec = func(cur []string) {
+					argLists = append(argLists, strings.Join(cur, ", "))
+					if len(cur) == 3 {
+						return
+					}
+					for _, a := range targs {
+						rec(append(append([]string{}, cur...), a))
+					}
+				}
+				rec(nil)
+				for _, al := range argLists {
+					for vi, v := range vals {
+						t := ct + "(" + al + ")"
+						probe("unit", "Decl foo(X) bound ["+t+"].\nfoo("+v+").\n")
+						if vi == 0 {
+							probe("unit", "Decl foo(X) bound [fn:List("+t+")].\nDecl bar(X) bound ["+t+"].\nbar(X) :- foo(L), :list:member(X, L).\n")
+							probe("unit", "Decl foo(X) bound ["+t+"].\nDecl bar(X) bound [/any].\nfoo("+v+").\nbar(X) :- foo(X).\n")
+						}
+					}
+				}
+			}})
+		}
+	}
+	// (h) extreme literals: numbers, floats, durations and timestamps at and beyond what their types can hold, in every
+	// literal position of a few templates
+	jobs = append(jobs, c10Job{"extreme literals", func(probe func(kind, input string)) {
+		lits := []string{"9223372036854775807", "9223372036854775808", "-9223372036854775808", "-9223372036854775809", "99999999999999999999999999", "1e308", "1e309", "-1e309", "1.7976931348623157e308", "4.9e-324", "1e-999",
+			"0.00000000000000000000000000000000000000000000000000000000001", "9999999h", "2562047h", "2562048h", "153722868m", "9223372037s", "9223372036855ms", "106751991167d", "99999999999999999999d", "0d", "00000000001s",
+			"9999-12-31", "0000-01-01", "2024-13-01", "2024-02-30", "2024-01-01T25:00:00", "2024-01-01T00:00:00.9999999999999", "9999-99-99T99:99:99Z"}
+		for _, l := range lits {
+			for _, tpl := range []string{"foo(%s).", "foo(1)@[%s].", "foo(1)@[%s, %s].", "foo(1)@[_, %s].", "bar(X) :- <-[0s, %s] foo(X).", "bar(X) :- [-[%s, %s] foo(X).", "bar(X) :- <+[%s, 1s] foo(X).", "bar(X)@[%s] :- foo(X).",
+				"bar(X) :- foo(X)@[%s, _].", "bar(X) :- foo(X), X < %s.", "bar(Y) :- foo(X), Y = fn:plus(X, %s).", "Decl foo(X) bound [fn:Singleton(%s)]."} {
+				src := strings.ReplaceAll(tpl, "%s", l)
+				for _, e := range []string{"unit", "clause", "lof", "term"} {
+					probe(e, src)
+				}
+				probe("unit", "Decl foo(X) temporal bound [/number].\n"+src+"\n")
+			}
+		}
+	}})
 	jobs = append(jobs, c10Job{"escape decoder strings <=4 over 10 characters", func(probe func(kind, input string)) {
 		alpha := []string{"\\", "x", "u", "{", "}", "0", "f", "g", "\"", "\n"}
 		var rec func(cur string, n int)
@@ -497,6 +637,6 @@ func c10(r *rt.Run) {
 	})
 	r.Extra["states"] = r.Get("evaluations")
 	r.Finish("(a) every token string of length <= k over a 49-token alphabet (k=3 quick, 4 thorough) and k+1 over a 29-token alphabet, offered to Unit/Clause/Term/LiteralOrFormula/PredicateName/Atom/BaseTerm; " +
-		"(b) every single-token deletion/duplication/replacement, every truncation and byte substitution of 19 valid sources (examples/*.mg + 3 inline; the quick tier leaves out the 9 KB flow_checking.mg); (c) every string <= 4 over 10 characters through ast.Unescape; (e) a declaration grid: arity 0-3 x every pair of 33 descriptor items x 13 bound/inclusion forms x 4 continuations; " +
+		"(b) every single-token deletion/duplication/replacement, every truncation and byte substitution of 19 valid sources (examples/*.mg + 3 inline; the quick tier leaves out the 9 KB flow_checking.mg); (c) every string <= 4 over 10 characters through ast.Unescape; (f) a built-in grid: every built-in function with every argument list of length <=3 over 5 argument forms in head / equality / let / reducer position and every built-in predicate with every argument list of length <=3 over 7 forms, plain and negated, x declarations x facts; (g) a type-expression grid: 12 constructors x every argument list of length <=3 over 9 forms x 6 values; (h) extreme literals in 12 templates; (e) a declaration grid: arity 0-3 x every pair of 33 descriptor items x 13 bound/inclusion forms x 4 continuations; " +
 		"(d) line deletions/duplications/blankings/replacements, digit replacements and truncations of 6 fact files, plain/gzip/zstd; units that parse go on to AnalyzeAndCheckBounds and EvalProgram under a fact limit; non-trivial = inputs that parse as a unit")
 }
